@@ -82,6 +82,9 @@ type C02Resp struct {
 	Incr     bool    `json:"incremental,omitempty"` // origin waits for the client to have received each chunk/event
 	Cuts     []int   `json:"cuts,omitempty"`
 	OrigClose bool   `json:"origin_close,omitempty"`
+	// UpgradeAdvert: the fields hold "Connection: Upgrade" and an Upgrade field although nothing is switched; whether the
+	// advertisement itself is passed on is not judged (hop-by-hop), everything else is
+	UpgradeAdvert bool `json:"upgrade_advert,omitempty"`
 }
 
 type C02Exch struct {
@@ -133,6 +136,12 @@ func genC02(t *rapid.T) C02Case {
 		}
 		if rapid.IntRange(0, 5).Draw(t, "ka") == 0 {
 			r.Fields = append(r.Fields, Field{"Keep-Alive", "timeout=5, max=100"})
+		}
+		if rapid.IntRange(0, 7).Draw(t, "upadvert") == 0 {
+			// an ordinary response that advertises protocols the origin could switch to (Apache with h2c, every 426):
+			// not a switch - status, fields and body travel like any other response's
+			r.UpgradeAdvert = true
+			r.Fields = append(r.Fields, Field{"Connection", "Upgrade"}, Field{"Upgrade", rapid.SampledFrom([]string{"h2c", "TLS/1.2, HTTP/1.1", "websocket"}).Draw(t, "upadvertv")})
 		}
 		if rapid.IntRange(0, 7).Draw(t, "pauth") == 0 {
 			r.Fields = append(r.Fields, Field{"Proxy-Authenticate", "Basic realm=\"origin\""})
@@ -684,6 +693,9 @@ func compareC02(c C02Case, i int, x C02Exch, built builtResp, m *Msg, vid string
 		nominated[strings.ToLower(tok)] = true
 	}
 	ignore := map[string]bool{"content-length": true, "transfer-encoding": true, "connection": true, "x-rid": true, "trailer": true, "content-encoding": true, "content-type": true}
+	if r.UpgradeAdvert {
+		ignore["upgrade"] = true
+	}
 	want := map[string][]string{}
 	for _, f := range r.Fields {
 		ln := strings.ToLower(f.Name)
@@ -804,6 +816,10 @@ func classifyC02(c C02Case) (bool, string, []string) {
 		if i > 0 && earlier {
 			nt = true
 			cls = append(cls, "after-special-exchange")
+		}
+		if r.UpgradeAdvert {
+			cls = append(cls, "upgrade-advertised-on-an-ordinary-response")
+			nt = true
 		}
 		if bodiless {
 			cls = append(cls, "bodiless")
